@@ -15,9 +15,19 @@ os.makedirs(WORK, exist_ok=True)
 os.makedirs(REPLAYS, exist_ok=True)
 
 
-def sh(cmd, timeout=3600, cwd=None, env=None, inp=None):
+def _big_stack():
+    # extracted OCaml code recurses on lists (non tail-recursive List functions): give the model processes the largest stack allowed
+    import resource
     try:
-        p = subprocess.run(cmd, shell=isinstance(cmd, str), cwd=cwd, env=env or ENV, input=inp,
+        soft, hard = resource.getrlimit(resource.RLIMIT_STACK)
+        resource.setrlimit(resource.RLIMIT_STACK, (hard, hard))
+    except Exception:
+        pass
+
+
+def sh(cmd, timeout=3600, cwd=None, env=None, inp=None, preexec=None):
+    try:
+        p = subprocess.run(cmd, shell=isinstance(cmd, str), cwd=cwd, env=env or ENV, input=inp, preexec_fn=preexec,
                            stdout=subprocess.PIPE, stderr=subprocess.STDOUT, timeout=timeout, text=True)
         return p.returncode, p.stdout
     except subprocess.TimeoutExpired as e:
@@ -151,14 +161,15 @@ class Check:
 
     def _run(self, exe, domain, cases, timeout, jobs):
         if jobs <= 1 or len(cases) < 4 * jobs:
-            rc, out = sh([exe], inp='\n'.join(cases) + '\n', timeout=timeout)
+            rc, out = sh([exe], inp='\n'.join(cases) + '\n', timeout=timeout, preexec=_big_stack if 'um_model_' in exe else None)
             lines = out.split('\n')
             if lines and lines[-1] == '': lines.pop()
             return rc, lines
         chunk = (len(cases) + jobs - 1) // jobs
         procs = []
         for i in range(0, len(cases), chunk):
-            p = subprocess.Popen([exe], stdin=subprocess.PIPE, stdout=subprocess.PIPE, stderr=subprocess.STDOUT, text=True, env=ENV)
+            p = subprocess.Popen([exe], stdin=subprocess.PIPE, stdout=subprocess.PIPE, stderr=subprocess.STDOUT, text=True, env=ENV,
+                                 preexec_fn=_big_stack if 'um_model_' in exe else None)
             procs.append((p, '\n'.join(cases[i:i + chunk]) + '\n'))
         import threading
         outs = [None] * len(procs)
